@@ -20,9 +20,9 @@ Witness(N, w, kw, F, q) ==
   /\ out = O0 /\ closed = [c \in Conns |-> FALSE]
   /\ last = [a |-> "init"] /\ prev = <<>> /\ steps = 0
   /\ hist = << [a |-> [a |-> "connect", c |-> w, k |-> kw, clean |-> TRUE, will |-> [NoWill EXCEPT !.t = "-"]],
-                out |-> Grp(O0, w, {Connack(FALSE, 0)}), closed |-> [c \in Conns |-> FALSE]],
+                out |-> Grp(O0, w, {Connack(FALSE, 0)}), closed |-> [c \in Conns |-> FALSE], nsess |-> 1],
                [a |-> [a |-> "subscribe", c |-> w, id |-> 1, req |-> [i \in 1..1 |-> [f |-> "#", q |-> q]]],
-                out |-> Grp(O0, w, {Suback(1, <<q>>)}), closed |-> [c \in Conns |-> FALSE]] >>
+                out |-> Grp(O0, w, {Suback(1, <<q>>)}), closed |-> [c \in Conns |-> FALSE], nsess |-> 1] >>
 
 -----------------------------------------------------------------------------
 (* C01 routing: two network clients + one in-process subscriber, clean sessions *)
@@ -127,6 +127,15 @@ AdmitNext == steps < MaxSteps /\
   \/ Subscribe(c2, 4, << <<<<"a">>, 0>> >>)
   \/ ApiPublish(<<"a">>, 0, FALSE, "x")
 AdmitSpec == AdmitInit /\ [][AdmitNext]_vars
+\* an authenticator that accepts user "good" only: refused logins that name the client id of a stored
+\* persistent session (with CleanSession 1 and 0) must leave that session alone
+SelNext == steps < MaxSteps /\
+  \/ Connect(c1, k1, FALSE, NoWill) \/ Connect(c1, k1, TRUE, NoWill)
+  \/ Subscribe(c1, 1, << <<<<"a">>, 1>> >>)
+  \/ End(c1, "disconnect") \/ End(c1, "cut")
+  \/ \E kind \in {"auth-k1-clean", "auth-k1-keep", "auth"} : Refuse(c2, kind, "")
+  \/ ApiPublish(<<"a">>, 1, FALSE, "x")
+SelSpec == Free(ANames) /\ [][SelNext]_vars
 \* the same with an authenticator that rejects every login
 AuthNext == steps < MaxSteps /\
   \/ Refuse(c1, "auth", "") \/ Refuse(c1, "auth", "a") \/ Refuse(c1, "level", "")
